@@ -8,6 +8,11 @@ scenario = {
   "script": {"<arrival index>": [action, ...]},      # arrival index counts S1/S4/sleep/ckpt/quiesce arrivals of _run
   "decisions": ["resume"|"abort"|"stop"|"halt", ...]  # issued from the main thread each time the engine is paused
   "max_arrivals": int
+  # implementation-only fault injection (NOT in the Lean model; used by the fault probes of harness/fault_probes.py):
+  "cb_faults": [{"doc": "start"|"descriptor"|"event"|"stop", "run": "run#k"|None, "nth": int}]   # a second subscriber
+               (after the recorder) raises CallbackFault on the nth matching document
+  devices: kind "anon" = a Stageable without .name/.parent; modes["clear_sub"] for a sig; spec["on_stop"] = action
+               issued from inside Motor.stop()
 }
 stmt AST: {"k":"msg","cmd":..,"obj":name|None,"args":[..],"kw":{..},"run":key|None}
         | {"k":"seq","body":[...]} | {"k":"try","body":s,"handler":s|None,"fin":s|None,"catch":"Exception"|"all"}
@@ -31,6 +36,10 @@ class DeviceError(Exception):
 
 
 class PlanError(Exception):
+    pass
+
+
+class CallbackFault(Exception):
     pass
 
 
@@ -116,6 +125,10 @@ class Motor(Dev):
             for st in list(self.H.statuses):
                 if st.dev == self.name and not st.done:
                     st.finish(False)
+        if self.spec.get("on_stop") and not self._counts.get("on_stop"):
+            # implementation-only probe: a request issued (from another thread) while the engine stops the motors
+            self._counts["on_stop"] = 1
+            self.H._issue(self.spec["on_stop"])
         if self._mode("stop") == "raise":
             raise DeviceError(f"{self.name}.stop raised")
 
@@ -180,6 +193,32 @@ class Det(Dev):
         return [self]
 
 
+class AnonStageable:
+    """a legal Stageable that has neither .name nor .parent (implementation-only probes)"""
+
+    def __init__(self, H, label, spec):
+        self.H, self._label, self.spec = H, label, spec
+        self._counts = {}
+        self.subs = []
+
+    _mode = Dev._mode
+
+    def stage(self):
+        self.H.led([self._label, "stage", None])
+        if self._mode("stage") == "raise":
+            raise DeviceError(f"{self._label}.stage raised")
+        return [self]
+
+    def unstage(self):
+        self.H.led([self._label, "unstage", None])
+        if self._mode("unstage") == "raise":
+            raise DeviceError(f"{self._label}.unstage raised")
+        return [self]
+
+    def __repr__(self):
+        return self._label
+
+
 class PausableMotor(Motor):
     def pause(self):
         self.H.led([self.name, "pause", None])
@@ -216,6 +255,8 @@ class Sig(Dev):
 
     def clear_sub(self, cb):
         self.H.led([self.name, "clear_sub", None])
+        if self._mode("clear_sub") == "raise":
+            raise DeviceError(f"{self.name}.clear_sub raised")
         # ophyd semantics: every registration of this callback is removed
         self.subs = [c for c in self.subs if c != cb]
 
@@ -268,11 +309,13 @@ class Harness:
         self.schema_errors = []
         self.plan_finished = False
         self._closing_by_engine = False
+        self.cb_fault_counts = {}
+        self.cb_faults_fired = []
         self.script = {int(k): v for k, v in sc.get("script", {}).items()}
         self.max_arrivals = sc.get("max_arrivals", 400)
         for name, spec in sc.get("devices", {}).items():
             motor_cls = AsyncPausableMotor if spec.get("pausable") == "async" else (PausableMotor if spec.get("pausable") else Motor)
-            cls = {"motor": motor_cls, "det": Det, "sig": Sig}[spec["kind"]]
+            cls = {"motor": motor_cls, "det": Det, "sig": Sig, "anon": AnonStageable}[spec["kind"]]
             self.devs[name] = cls(self, name, spec)
 
     def led(self, entry):
@@ -349,6 +392,12 @@ class Harness:
                     yield from self.gen(st["fin"])
             return r
         if k == "raise":
+            if st.get("exc") == "oserror":       # implementation-only probes: exceptions whose args[0] is not a string
+                raise FileNotFoundError(2, "No such file or directory", st.get("tag", "boom"))
+            if st.get("exc") == "keyerror-int":
+                raise KeyError(3)
+            if st.get("exc") == "noargs":
+                raise PlanError()
             raise PlanError(st.get("tag", "boom"))
         if k == "ret":
             return st.get("v")
@@ -420,6 +469,19 @@ class Harness:
         # implementation-only probes: actions fired by a subscriber while a document of this kind is dispatched
         for act in self.sc.get("doc_triggers", {}).get(name, []):
             self._issue(act)
+
+    def faulty_subscriber(self, name, doc):
+        """second subscriber (registered after the recorder): raises on the documents named by sc["cb_faults"]"""
+        if not self.docs or self.docs[-1]["k"] != name:
+            return
+        run = self.docs[-1].get("run")
+        for i, f in enumerate(self.sc.get("cb_faults", [])):
+            if f["doc"] == name and f.get("run") in (None, run):
+                n = self.cb_fault_counts.get(i, 0)
+                self.cb_fault_counts[i] = n + 1
+                if n == f.get("nth", 0):
+                    self.cb_faults_fired.append([name, run])
+                    raise CallbackFault(f"subscriber failed on {name} of {run}")
 
     @staticmethod
     def canon_reason(r):
@@ -610,6 +672,8 @@ def run_scenario(sc, timeout=20.0):
             RE.msg_hook = H.msg_hook
             RE.state_hook = H.state_hook
             RE.subscribe(H.on_doc)
+            if sc.get("cb_faults"):
+                RE.subscribe(H.faulty_subscriber)
             RE.log.disabled = True
             loop.idle_hook = H.idle
             loop.busy.set()
@@ -669,7 +733,7 @@ def run_scenario(sc, timeout=20.0):
                 ok = guarded(getattr(RE, d), d)
             H.final_state = str(RE.state)
             H.subs_left = {n: len(d.subs) for n, d in H.devs.items() if isinstance(d, Sig)}
-            H.staged_left = sorted(getattr(o, "name", "?") for o in RE._staged)
+            H.staged_left = sorted(getattr(o, "name", None) or repr(o) for o in RE._staged)
     finally:
         undo()
         if hasattr(H, "_undo_close"):
@@ -690,6 +754,8 @@ def run_scenario(sc, timeout=20.0):
         "returns": H.returns,
         "final_state": getattr(H, "final_state", "?"),
         "subs_left": getattr(H, "subs_left", {}),
+        "staged_left": getattr(H, "staged_left", []),
+        "cb_faults_fired": H.cb_faults_fired,
         "notes": H.notes,
         "ticks": H.ticks,
         "engine_closed": H.engine_closed,
